@@ -19,7 +19,10 @@ def image_contrast(image):
         float: Contrast value
     """
 
-    contrast = (image.max() - image.min()) / (image.max() + image.min())
+    # (as Python floats: max + min / max - min would wrap around in the integer
+    # type of a raw detector frame)
+    img_max, img_min = float(image.max()), float(image.min())
+    contrast = (img_max - img_min) / (img_max + img_min)
 
     return float(contrast)
 
